@@ -232,15 +232,23 @@ class Container:
         raise NotImplementedError
 
     def _checkForCrossReferences(self, memo=None):
-        if not self._checkedForCrossReferences:
-            if memo is None:
-                memo = set()
-            if any(x is self for x in memo):
-                raise ContainerException(f"cannot fill a tree that contains the same aggregator twice: {self}")
-            memo.add(self)
-            for child in self.children:
-                child._checkForCrossReferences(memo)
-            self._checkedForCrossReferences = True
+        if memo is None:
+            # the "already checked" flag only short-cuts whole walks: inside a walk every node must be
+            # compared with the memo, or the second occurrence of a shared node is never seen
+            if self._checkedForCrossReferences:
+                return
+            memo = []
+        if any(x is self for x in memo):
+            raise ContainerException(f"cannot fill a tree that contains the same aggregator twice: {self}")
+        memo.append(self)
+        for child in self._fillableChildren:
+            child._checkForCrossReferences(memo)
+        self._checkedForCrossReferences = True
+
+    @property
+    def _fillableChildren(self):
+        """Sub-aggregators that ``fill`` can reach (``children`` without never-filled templates)."""
+        return self.children
 
     def toJsonFile(self, fileName):
         path = Path(fileName)
